@@ -14,6 +14,7 @@ import (
 	"encoding/json"
 	"errors"
 	"fmt"
+	"io"
 	"math/rand/v2"
 	"os"
 	"path/filepath"
@@ -116,8 +117,10 @@ func gen(r *rand.Rand) WL {
 		w.Fault.Kind = "readfail"
 	case x < 17:
 		w.Fault.Kind = "dberr"
+		w.Fault.J = r.Uint32() % 7 // error shape
 	case x < 18:
 		w.Fault.Kind = "cursorerr" // a cursor that delivers part of its rows and then reports an error
+		w.Fault.J = r.Uint32() % 7
 	default:
 		w.Fault.Kind = "cancel"
 	}
@@ -125,6 +128,27 @@ func gen(r *rand.Rand) WL {
 }
 
 var errInjected = errors.New("injected database fault")
+
+// shapedErr: what a failing database call returns. Besides the opaque error, errors that ALSO match an
+// identity code likes to special-case (end of data, not found, context errors of the call's own
+// making while the dump's context is alive): a failed read is a failed read whatever it wraps.
+func shapedErr(site string, shape uint32) error {
+	switch shape % 7 {
+	case 1:
+		return fmt.Errorf("%s: %w (%w)", site, io.EOF, errInjected)
+	case 2:
+		return fmt.Errorf("%s: %w (%w)", site, io.ErrUnexpectedEOF, errInjected)
+	case 3:
+		return fmt.Errorf("%s: %w (%w)", site, graph.ErrNoResultsFound, errInjected)
+	case 4:
+		return fmt.Errorf("%s: %w (%w)", site, context.Canceled, errInjected)
+	case 5:
+		return fmt.Errorf("%s: %w (%w)", site, context.DeadlineExceeded, errInjected)
+	case 6:
+		return fmt.Errorf("%s: %w (%w)", site, graph.ErrContextTimedOut, errInjected)
+	}
+	return fmt.Errorf("%s: %w", site, errInjected)
+}
 
 var scratchRoot string
 
@@ -557,7 +581,7 @@ func (r *runner) crashRun(k, j int, nested []uint32, neg string, negArg uint32) 
 		finalSrc.Hook = func(_ context.Context, site string) error {
 			if finalSrc.Calls == at {
 				r.counters["negative_resume_with_transient_db_error"]++
-				return fmt.Errorf("%s: %w", site, errInjected)
+				return shapedErr(site, r.w.Fault.NegDB/8)
 			}
 			return nil
 		}
@@ -615,7 +639,7 @@ func (r *runner) errorRun() (string, string) {
 		src.Hook = func(_ context.Context, site string) error {
 			if src.Calls == k {
 				r.counters["db_errors_injected"]++
-				return fmt.Errorf("%s: %w", site, errInjected)
+				return shapedErr(site, f.J)
 			}
 			return nil
 		}
@@ -627,7 +651,7 @@ func (r *runner) errorRun() (string, string) {
 			nth++
 			if nth == 1+k%7 && rows > 0 {
 				r.counters["partial_cursors_injected"]++
-				return (rows + 1) / 2, fmt.Errorf("%s: %w after %d of %d rows", site, errInjected, (rows+1)/2, rows)
+				return (rows + 1) / 2, shapedErr(fmt.Sprintf("%s after %d of %d rows", site, (rows+1)/2, rows), f.J)
 			}
 			return rows, nil
 		}
